@@ -231,7 +231,7 @@ pub fn run(args: &Args, rep: &mut Report) {
         return run_c03(args, rep, &pool, steps);
     }
     let fams = families_for(&prop);
-    let ncases: u64 = args.extra_u64("cases").unwrap_or(args.pick(8, 400));
+    let ncases: u64 = args.extra_u64("cases").unwrap_or(args.pick(12, 400));
     for i in 0..ncases {
         if !rep.within_budget() {
             rep.count("stopped_by_budget");
